@@ -47,6 +47,9 @@ func Gen(t *rapid.T) Scenario {
 	if sc.Mode != "p2p-only" && rapid.IntRange(0, 3).Draw(t, "restartagg") == 0 {
 		sc.RestartAgg = rapid.IntRange(1, sc.Blocks-1).Draw(t, "restartaggat")
 	}
+	if sc.RestartAgg > 0 && rapid.Bool().Draw(t, "submitdelay") {
+		sc.SubmitDelayMs = rapid.SampledFrom([]int{30, 100, 300}).Draw(t, "submitdelayms")
+	}
 	n := rapid.IntRange(1, 4).Draw(t, "nsteps")
 	at := 0
 	seq := 0
@@ -269,6 +272,12 @@ func (r *Result) Judge(id string, oracle func() *world.Problem) world.Verdict {
 	}
 	if r.Stall != "" {
 		return world.Fail(id+"/real/stalled", "%s", r.Stall)
+	}
+	if r.IncStall != "" && (id == "C07" || id == "C13") {
+		return world.Fail(id+"/real/aggregator-inclusion-stalled-after-clean-restart", "%s", r.IncStall)
+	}
+	if r.StopLivelock != "" && id == "C13" {
+		return world.Fail(id+"/real/stop-ignored-by-busy-loop", "%s", r.StopLivelock)
 	}
 	if p := oracle(); p != nil {
 		return world.Fail(id+"/real/"+p.Sig, "%s", p.Msg)
